@@ -681,6 +681,18 @@ func indexEntryMapperFor(index, primaryIndex *Index) store.EntryMapper {
 	// value={count (colID valLen val)+})
 	// key=M.{tableID}{indexID}({null}({val}{padding}{valLen})?)+({pkVal}{padding}{pkValLen})+
 
+	// The mapper outlives the transaction that registers it and index.table may be
+	// that transaction's private copy of the schema, changed later by its own DDL
+	// even if it is rolled back. Only the columns of the index and of the primary
+	// key are needed and those never change: capture them now, skip all the others.
+	colTypes := make(map[uint32]SQLValueType, len(index.cols)+len(primaryIndex.cols))
+	for _, col := range index.cols {
+		colTypes[col.id] = col.colType
+	}
+	for _, col := range primaryIndex.cols {
+		colTypes[col.id] = col.colType
+	}
+
 	valueExtractor := func(value []byte, valuesByColID map[uint32]TypedValue) error {
 		voff := 0
 
@@ -699,19 +711,17 @@ func indexEntryMapperFor(index, primaryIndex *Index) store.EntryMapper {
 			colID := binary.BigEndian.Uint32(value[voff:])
 			voff += EncIDLen
 
-			col, err := index.table.GetColumnByID(colID)
-			if errors.Is(err, ErrColumnDoesNotExist) {
+			colType, isKeyCol := colTypes[colID]
+			if !isKeyCol {
 				vlen, n, err := DecodeValueLength(value[voff:])
 				if err != nil {
 					return err
 				}
 				voff += n + vlen
 				continue
-			} else if err != nil {
-				return err
 			}
 
-			val, n, err := DecodeValue(value[voff:], col.colType)
+			val, n, err := DecodeValue(value[voff:], colType)
 			if err != nil {
 				return err
 			}
@@ -731,8 +741,8 @@ func indexEntryMapperFor(index, primaryIndex *Index) store.EntryMapper {
 
 		valuesByColID := make(map[uint32]TypedValue, len(index.cols))
 
-		for _, col := range index.table.cols {
-			valuesByColID[col.id] = &NullValue{t: col.colType}
+		for colID, colType := range colTypes {
+			valuesByColID[colID] = &NullValue{t: colType}
 		}
 
 		err := valueExtractor(value, valuesByColID)
